@@ -105,6 +105,21 @@ extern "C" void h_members(void) {
       vp_assert(util::rep(ip.position()) == 0 && &ip.home_region() == &in_m->parameters().region() && &in_m->parameters().region().enclosing() == &parent && &in_l->parameters().region().enclosing() == &parent, 17);
       vp_assert(util::rep(m->parameters().level()) == lvl, 18);      // and the outer list keeps its own
    }
+   {  // parameters that share name and type nodes (the unnamed parameters of `f(int, int, bool, int)`; a repeated name): each is a member
+      // of its own, at the position it was added
+      auto* dm = lx.make_mapping(*w->unit.global_region(), Mapping_level{ lvl }); auto* dl = lx.make_lambda(*w->unit.global_region(), Mapping_level{ lvl });
+      const ipr::Name* DN[2] = { &lx.get_identifier(u8""), N[0] }; const ipr::Type* DT[2] = { &lx.int_type(), &lx.bool_type() };
+      const ipr::Parameter* dp[4]; const ipr::Parameter* dq[4]; unsigned pn[4], pt[4];
+      for (unsigned i = 0; i < 4; ++i) {
+         pn[i] = i < 3 ? vp_pick(2) : pn[0]; pt[i] = i < 3 ? vp_pick(2) : pt[0];
+         dp[i] = dm->param(*DN[pn[i]], *DT[pt[i]]); dq[i] = dl->inputs.add_member(*DN[pn[i]], *DT[pt[i]]);
+         vp_assert(util::rep(dp[i]->position()) == i && util::rep(dq[i]->position()) == i, 30);
+         vp_assert(&dp[i]->name() == DN[pn[i]] && &dp[i]->type() == DT[pt[i]] && &dq[i]->type() == DT[pt[i]], 31);
+         for (unsigned j = 0; j < i; ++j) vp_assert(dp[j] != dp[i] && dq[j] != dq[i], 32);
+      }
+      vp_assert(dm->parameters().size() == 4 && dl->parameters().size() == 4, 33);
+      { unsigned i = 0; for (auto& x : dm->parameters()) { vp_assert(i < 4 && &x == dp[i] && util::rep(x.position()) == i, 34); ++i; } i = 0; for (auto& x : dl->parameters()) { vp_assert(i < 4 && &x == dq[i], 34); ++i; } }
+   }
    vp_done();
 }
 // units: unnamed global namespace typed `namespace`; module units link back to their module
